@@ -34,6 +34,13 @@
 
 #include "urcu-die.h"
 #include "urcu-utils.h"
+#ifdef URCU_VERIF
+#include <urcu/verif.h>
+#else
+#ifndef urcu_verif_point
+#define urcu_verif_point(id, ctx) do { } while (0)
+#endif
+#endif
 
 #define URCU_API_MAP
 /* Do not #define _LGPL_SOURCE to ensure we can emit the wrapper symbols */
@@ -74,13 +81,17 @@ void *mremap_wrapper(void *old_address __attribute__((__unused__)),
 #endif
 
 /* Sleep delay in ms */
+#ifndef RCU_SLEEP_DELAY_MS
 #define RCU_SLEEP_DELAY_MS	10
+#endif
 #define INIT_READER_COUNT	8
 
 /*
  * Active attempts to check for reader Q.S. before calling sleep().
  */
+#ifndef RCU_QS_ACTIVE_ATTEMPTS
 #define RCU_QS_ACTIVE_ATTEMPTS 100
+#endif
 
 static
 int urcu_bp_refcount;
@@ -239,6 +250,7 @@ static void wait_for_readers(struct cds_list_head *input_readers,
 				cds_list_move(&index->node, qsreaders);
 				break;
 			case URCU_BP_READER_ACTIVE_OLD:
+				urcu_verif_point(URCU_VP_GP_ACTIVE_OLD, index);
 				/*
 				 * Old snapshot. Leaving node in
 				 * input_readers will make us busy-loop
@@ -254,6 +266,7 @@ static void wait_for_readers(struct cds_list_head *input_readers,
 		} else {
 			/* Temporarily unlock the registry lock. */
 			mutex_unlock(&rcu_registry_lock);
+			urcu_verif_point(URCU_VP_GP_REGISTRY_UNLOCKED, input_readers);
 			if (wait_loops >= RCU_QS_ACTIVE_ATTEMPTS)
 				(void) poll(NULL, 0, RCU_SLEEP_DELAY_MS);
 			else
@@ -306,8 +319,10 @@ void urcu_bp_synchronize_rcu(void)
 	cmm_smp_mb();
 
 	/* Switch parity: 0 -> 1, 1 -> 0 */
+	urcu_verif_point(URCU_VP_GP_PRE_FLIP, &rcu_gp);
 	cmm_annotate_group_mem_release(&release_group, &rcu_gp.ctr);
 	uatomic_store(&rcu_gp.ctr, rcu_gp.ctr ^ URCU_BP_GP_CTR_PHASE);
+	urcu_verif_point(URCU_VP_GP_POST_FLIP, &rcu_gp);
 
 	/*
 	 * Must commit qparity update to memory before waiting for other parity
@@ -410,6 +425,7 @@ void expand_arena(struct registry_arena *arena)
 	if (new_chunk != MAP_FAILED) {
 		/* Should not have moved. */
 		assert(new_chunk == last_chunk);
+		urcu_verif_point(URCU_VP_BP_ARENA_IN_PLACE, new_chunk);
 		memset((char *) last_chunk + old_chunk_size_bytes, 0,
 			new_chunk_size_bytes - old_chunk_size_bytes);
 		last_chunk->capacity = new_capacity;
@@ -426,6 +442,7 @@ void expand_arena(struct registry_arena *arena)
 		abort();
 	memset(new_chunk, 0, new_chunk_size_bytes);
 	new_chunk->capacity = new_capacity;
+	urcu_verif_point(URCU_VP_BP_ARENA_NEW_CHUNK, new_chunk);
 	cds_list_add_tail(&new_chunk->node, &arena->chunk_list);
 }
 
@@ -486,6 +503,7 @@ void add_thread(void)
 	 * why its memory should never be relocated.
 	 */
 	URCU_TLS(urcu_bp_reader) = rcu_reader_reg;
+	urcu_verif_point(URCU_VP_BP_ADD_THREAD, rcu_reader_reg);
 }
 
 /* Called with mutex locked */
